@@ -62,6 +62,10 @@ INFO = {
  'C11c': ('C11', "f_and_g_prod_corrected_diagonal builds its drift with _f_uncorrected (copy-paste)", "Ito, diagonal noise, state-dependent g, an adjoint solver that uses f_and_g_prod (adjoint_method='euler')"),
  'C15c': ('C15', "ReversibleHeun.init_extra_solver_state evaluates f_and_g at -t0", "ts[0] != 0, explicitly time-dependent f or g, library-made initial extra state: state 0 is not reconstructed"),
  'C17c': ('C17', "new ForwardSDE.prod_additive uses g[0] for the whole batch (one mm instead of bmm)", "additive noise, batch >= 2, diffusion matrix differing across batch rows"),
+ 'C07d': ('C07', "_Interval.__init__ no longer rounds start/end to the tolerance (\"round once\" refactor): the top-level t0/t1 are not snapped to the grid while queries still are", "tol > 0 (BrownianTree default), t0 that rounds down or t1 that rounds up, a query starting at t0 / ending at t1: AttributeError on the parent of the top node"),
+ 'C09d': ('C09', "AdjointSDE.g_prod_and_gdg_prod_diagonal: `.detach()` removed from the grad_outputs of the mixed-partials VJP", "diagonal noise, Milstein as adjoint solver on a Stratonovich SDE (explicit adjoint_method='milstein'), state-dependent g: gradient bias that does not vanish with dt"),
+ 'C14d': ('C14', "adaptive trial steps clipped to the next OUTPUT time instead of ts[-1]", "adaptive=True, > 2 output times, an intermediate output closer than dt_min to the end of the previous accepted step: trial shorter than dt_min not ending at ts[-1]"),
+ 'C16d': ('C16', "dg_ga_jvp_column_sum_v1 re-leafs y AFTER evaluating g: the JVP is taken w.r.t. a leaf g does not depend on and silently becomes zero", "log_ode, general noise with >= 2 channels, Levy-area Brownian motion, state without autograd history (plain y0 / no_grad)"),
  'C20': ('C20', "Levy-area noise drawn at size[1:-1] + (m, m) and broadcast over the batch", "davie/foster, batch >= 2, m >= 2: all batch rows share the Levy-area noise (marginals unchanged)"),
 }
 for sid, (prop, what, needs) in INFO.items():
